@@ -217,14 +217,15 @@ var propDigest = harn.Register(&harn.Prop[scen.Case]{Name: "TestDigests", Run: r
 
 var opts = scen.GenOpts{
 	World: world.Opts{MaxFlows: 3, MaxNodes: 5, Languages: []string{"fra", "spa", "kin"}, QueryGroups: true, Voice: true, Background: true, WebhookRefs: true,
-		WebhookCmds: []string{"casevariant", "casevariant"}, Templates: []string{"@webhook.json.a", "@webhook.json.name", "@(webhook.json.A)", "@(json(webhook.json))", "@webhook.headers", "@(json(results))", "@(json(contact.fields))", "@contact.groups", "@(foo",
+		WebhookCmds: []string{"casevariant", "casevariant", "json"}, Templates: []string{"@legacy_extra.code", "@legacy_extra.name", "@(json(legacy_extra))", "@webhook.json.a", "@webhook.json.name", "@(webhook.json.A)", "@(json(webhook.json))", "@webhook.headers", "@(json(results))", "@(json(contact.fields))", "@contact.groups", "@(foo",
 			// several different deprecated context values in one expression (each logs a warning event)
 			"@(results.color.values & results.color.categories)", "@(results.color.categories_localized & results.color.values & legacy_extra)", "@(legacy_extra.name & child.run.status & results.answer.categories)"}},
-	Batch:       true,
-	StaleGroups: true,
-	Refresh:     true,
-	Restarts:    true,
-	MaxSteps:    4,
+	Batch:        true,
+	StaleGroups:  true,
+	Refresh:      true,
+	Restarts:     true,
+	FrozenClocks: true,
+	MaxSteps:     4,
 }
 
 func drawScenario(rt *rapid.T) *scen.Case {
